@@ -456,7 +456,13 @@ class Samples(BaseSamples):
             x is not None
             for x in [self.log_likelihood, self.log_prior, self.log_q]
         ):
+            # An evidence passed to the constructor is carried, not recomputed
+            log_evidence = self.log_evidence
+            log_evidence_error = self.log_evidence_error
             self.compute_weights()
+            if log_evidence is not None:
+                self.log_evidence = log_evidence
+                self.log_evidence_error = log_evidence_error
         else:
             self.log_w = None
             self.weights = None
